@@ -5,13 +5,9 @@ package main
 import (
 	"net/netip"
 	"os"
-	"sync"
 
 	"github.com/irai/packet"
-	"github.com/irai/packet/handlers/arp_spoofer"
 	"github.com/irai/packet/handlers/dhcp4_spoofer"
-	"github.com/irai/packet/handlers/dns_naming"
-	"github.com/irai/packet/handlers/icmp_spoofer"
 	"pvharness/lib"
 )
 
@@ -20,11 +16,6 @@ func ret(err error) string { return "ret" }
 // exact returns a copy whose capacity equals its length.
 func exact(b []byte) []byte { return withCap(b, nil) }
 
-var (
-	arpOnce sync.Once
-	arpH    *arp_spoofer.Handler
-	i4H     *icmp_spoofer.Handler4
-)
 
 func dhcpHandler(s *packet.Session) *dhcp4_spoofer.Handler {
 	f, _ := os.CreateTemp("", "c08lease")
@@ -69,11 +60,14 @@ func init() {
 		return oe(err)
 	}
 	ssdp := func(a []string) string {
-		s := session()
 		payload := lib.UnHex(a[0])
+		c := ctxFor(false)
 		f := udpFrame(1900, 1900, netip.MustParseAddr("239.255.255.250"), packet.EthBroadcast, payload)
-		h := dns_naming.VerifNew(s)
-		_, _, err := h.ProcessSSDP(nil, packet.Ether(f), exact(payload))
+		frame, err := c.s.Parse(exact(f))
+		if err != nil || frame.PayloadID != packet.PayloadSSDP {
+			return "parse-rejected"
+		}
+		_, err = dispatch(c, env{}, frame)
 		return oe(err)
 	}
 	impls["ssdp"] = ssdp
@@ -83,57 +77,5 @@ func init() {
 			"\r\nLOCATION: http://192.168.0.50:80/d.xml\r\nNT: upnp:rootdevice\r\nNTS: ssdp:alive\r\nUSN: uuid:1\r\n\r\n"
 		return ssdp([]string{lib.Hex([]byte(msg))})
 	}
-	impls["arp"] = func(a []string) string {
-		s := session()
-		arpOnce.Do(func() { arpH, _ = arp_spoofer.New(s) })
-		frame, err := s.Parse(exact(lib.UnHex(a[0])))
-		if err != nil || frame.PayloadID != packet.PayloadARP {
-			return "parse-rejected"
-		}
-		return ret(arpH.ProcessPacket(frame))
-	}
-	impls["icmp4"] = func(a []string) string {
-		s := session()
-		if i4H == nil {
-			i4H, _ = icmp_spoofer.New4(s)
-		}
-		frame, err := s.Parse(exact(lib.UnHex(a[0])))
-		if err != nil || frame.PayloadID != packet.PayloadICMP4 {
-			return "parse-rejected"
-		}
-		return ret(i4H.ProcessPacket(frame))
-	}
-	impls["icmp6"] = func(a []string) string {
-		s := session()
-		h, _ := icmp_spoofer.New6(s)
-		frame, err := s.Parse(exact(lib.UnHex(a[0])))
-		if err != nil || frame.PayloadID != packet.PayloadICMP6 {
-			return "parse-rejected"
-		}
-		if (frame.Host != nil) != (a[2] == "T") {
-			return "host-flag-differs"
-		}
-		icmp_spoofer.VerifSetRepeat(-1) // the next router advertisement is the one in four that is processed
-		return ret(h.ProcessPacket(frame))
-	}
-	impls["dhcp4"] = func(a []string) string {
-		s := session()
-		h := dhcpHandler(s)
-		frame, err := s.Parse(exact(lib.UnHex(a[0])))
-		if err != nil || frame.PayloadID != packet.PayloadDHCP4 {
-			return "parse-rejected"
-		}
-		return ret(h.ProcessPacket(frame))
-	}
-	// no model in this cluster (DNS cluster: Properties/C08_dns.v): Go-side oracle only
-	impls["dnsproc"] = func(a []string) string {
-		s := session()
-		h := dns_naming.VerifNew(s)
-		frame, err := s.Parse(exact(lib.UnHex(a[0])))
-		if err != nil || frame.PayloadID != packet.PayloadDNS {
-			return "parse-rejected"
-		}
-		_, err = h.ProcessDNS(frame)
-		return ret(err)
-	}
+	initPath()
 }
